@@ -1079,3 +1079,15 @@ var mutNegateCond = mutOp{Name: "negate-condition", Exploratory: true, Doc: "neg
 		}
 		return out
 	}}
+
+var mutWeakenCond = mutOp{Name: "weaken-condition", Exploratory: true, Doc: "replace `a && b` / `a || b` by one of its operands",
+	Gen: func(m *model.Model, scope map[string]bool) []mutant {
+		saved := explorePkgFilter
+		defer func() { explorePkgFilter = saved }()
+		var out []mutant
+		for _, p := range scopedPkgs(m, scope) {
+			explorePkgFilter = p.PkgPath
+			out = append(out, genWeaken(m, "", false)...)
+		}
+		return out
+	}}
